@@ -16,9 +16,10 @@
                   proof types / JWS alg, selectable.empty()}; `decode` = vc.ParseVerifiableCredential /
                   ParseVerifiablePresentation on a value found in the envelope.
 
-  The two places where today's source differs from the source the design was written against are facts
-  (`Cfg`), regenerated from /repo: `arrayGuard` (matchFilter leaves the array case unless the filter asks for an
-  array) and `maxNilCheck` (apply tests `Max != nil` before dereferencing).
+  The places where today's source differs from the source the design was written against are facts (`Cfg`),
+  regenerated from /repo: `arrayGuard` (matchFilter leaves the array case unless the filter asks for an array),
+  `maxNilCheck` (apply tests `Max != nil` before dereferencing) and `dupCheck` (Resolve rejects a second entry
+  for the same input descriptor).
 -/
 import NutsModel.Base
 
@@ -43,10 +44,13 @@ structure Cfg where
   arrayGuard : Bool
   /-- `apply`: `Max` is tested for nil before `*Max` (old code: dereferences unconditionally) -/
   maxNilCheck : Bool
+  /-- `Resolve`: a descriptor-map entry whose id was already resolved is an error (old code: the later entry
+      silently replaces the earlier one) -/
+  dupCheck : Bool
   deriving Repr, DecidableEq
 
-def Cfg.fixed : Cfg := { arrayGuard := true, maxNilCheck := true }
-def Cfg.old : Cfg := { arrayGuard := false, maxNilCheck := false }
+def Cfg.fixed : Cfg := { arrayGuard := true, maxNilCheck := true, dupCheck := true }
+def Cfg.old : Cfg := { arrayGuard := false, maxNilCheck := false, dupCheck := false }
 
 /-! ### JSONPath subset -/
 
@@ -421,22 +425,35 @@ def matchConstraints (cfg : Cfg) (re : Regex) (pd : PD) (wallet : List Cred) : L
     | .err e => .err e
     | .panic s => .panic s
 
-/-- `InputDescriptorMappingObject` -/
-structure Mapping where
+/-- one level of an `InputDescriptorMappingObject`. Paths are kept parsed (`none` = jsonpath cannot parse it);
+    rendering/parsing of the path text is done by the driver and tied by `fact_mapping_paths`. -/
+structure Level where
   id : String
   fmt : String
-  path : String
-  nested : Option (String × String × String) := none   -- one level of path_nested (id, format, path)
+  path : Option Path
   deriving Repr, DecidableEq, Inhabited
 
-def vcPath (i : Nat) : String := "$.verifiableCredential[" ++ toString i ++ "]"
+/-- `InputDescriptorMappingObject`: the top level and the chain of `path_nested` levels below it -/
+structure Mapping where
+  top : Level
+  nested : List Level := []
+  deriving Repr, DecidableEq, Inhabited
+
+def Mapping.id (m : Mapping) : String := m.top.id
+
+/-- `fmt.Sprintf("$.verifiableCredential[%d]", index)` -/
+def vcPath (i : Nat) : Path := { steps := [.key "verifiableCredential", .idx i] }
+/-- `"$.verifiableCredential"` (the single-mapping rewrite in `Build`) -/
+def vcPathSingle : Path := { steps := [.key "verifiableCredential"] }
+
+def mkMapping (id fmt : String) (i : Nat) : Mapping := { top := { id := id, fmt := fmt, path := some (vcPath i) } }
 
 /-- the final loop of `matchBasic` (all candidates have a credential) -/
 def basicMappings : Nat → List Cand → List Mapping × List Cred
   | _, [] => ([], [])
   | i, (d, some c) :: rest =>
     let r := basicMappings (i + 1) rest
-    ({ id := d.id, fmt := c.fmt, path := vcPath i } :: r.1, c :: r.2)
+    (mkMapping d.id c.fmt i :: r.1, c :: r.2)
   | i, (_, none) :: rest => basicMappings i rest     -- unreachable: checked before
 
 def matchBasic (cfg : Cfg) (re : Regex) (pd : PD) (wallet : List Cred) : Res (List Mapping × List Cred) :=
@@ -469,7 +486,7 @@ def srMappings (cands : List Cand) : Nat → List Cred → List Mapping
   | _, [] => []
   | i, u :: us =>
     match cands.find? (fun c => match c.2 with | some v => v.key == u.key | none => false) with
-    | some (d, some v) => { id := d.id, fmt := v.fmt, path := vcPath i } :: srMappings cands (i + 1) us
+    | some (d, some v) => mkMapping d.id v.fmt i :: srMappings cands (i + 1) us
     | _ => srMappings cands i us
 
 def matchSubmissionRequirements (cfg : Cfg) (re : Regex) (pd : PD) (wallet : List Cred) : Res (List Mapping × List Cred) :=
@@ -503,5 +520,138 @@ def credentialsRequired (pd : PD) : Bool :=
   match go pd.srs with
   | some b => b
   | none => !pd.descs.isEmpty
+
+/-! ### Build (wallet side) -/
+
+/-- the wallet loop of `Build`: the first wallet whose `Match` succeeds; errors are collected, panics propagate -/
+def firstWallet (cfg : Cfg) (re : Regex) (pd : PD) : List (List Cred) → Res (Option (List Mapping × List Cred))
+  | [] => .ok none
+  | w :: ws =>
+    match pdMatch cfg re pd w with
+    | .ok r => .ok (some r)
+    | .err _ => firstWallet cfg re pd ws
+    | .panic s => .panic s
+
+/-- `if len(signInstruction.Mappings) == 1 { Mappings[0].Path = "$.verifiableCredential" }` -/
+def rewriteSingle : List Mapping → List Mapping
+  | [m] => [{ m with top := { m.top with path := some vcPathSingle } }]
+  | ms => ms
+
+/-- `PresentationSubmissionBuilder.Build`: the sign instruction (mappings = descriptor map of the submission, credentials) -/
+def build (cfg : Cfg) (re : Regex) (pd : PD) (wallets : List (List Cred)) : Res (List Mapping × List Cred) :=
+  match firstWallet cfg re pd wallets with
+  | .ok (some (ms, vcs)) => .ok (rewriteSingle ms, vcs)
+  | .ok none =>
+    if credentialsRequired pd then .err "nomatch"
+    else if wallets.isEmpty then .panic "index"       -- `b.holders[0]`
+    else .ok ([], [])
+  | .err e => .err e
+  | .panic s => .panic s
+
+/-! ### Resolve / Validate (verifier side) -/
+
+/-- go-did contract: what `ParseVerifiableCredential` / `ParseVerifiablePresentation` make of a value found in the
+    envelope. `cred` is set when the value decodes to a credential; `asMap` is the `json.Marshal`→map view used to
+    evaluate `path_nested` (absent when the decoded value marshals to a JSON string, i.e. JWT). -/
+structure Decoded where
+  cred : Option Cred := none
+  asMap : Option J := none
+  deriving Repr, Inhabited
+
+abbrev Decoder := J → String → Option Decoded
+
+/-- `resolveCredential`: one level, then the `path_nested` chain -/
+def resolveLevels (decode : Decoder) : Level → List Level → J → Res Cred
+  | lv, rest, value =>
+    match lv.path with
+    | none => .err "resolve"
+    | some p =>
+      match getPath p value with
+      | none => .err "resolve"
+      | some target =>
+        let decoded : Option Decoded :=
+          match target with
+          | .str _ => if lv.fmt == "jwt_vc" || lv.fmt == "jwt_vp" then decode target lv.fmt else none
+          | .obj _ => if lv.fmt == "ldp_vc" || lv.fmt == "ldp_vp" then decode target lv.fmt else none
+          | _ => none
+        match decoded with
+        | none => .err "resolve"
+        | some d =>
+          match rest with
+          | [] => (match d.cred with | some c => .ok c | none => .err "resolve")
+          | nx :: rest' => resolveLevels decode nx rest' (match d.asMap with | some m => m | none => .null)
+
+def resolveCredential (decode : Decoder) (m : Mapping) (value : J) : Res Cred :=
+  resolveLevels decode m.top m.nested value
+
+/-- `PresentationSubmission.Resolve`: input-descriptor id ↦ credential (a later entry with the same id overwrites) -/
+def resolve (cfg : Cfg) (decode : Decoder) (env : J) : List (String × Cred) → List Mapping → Res (List (String × Cred))
+  | acc, [] => .ok acc
+  | acc, m :: ms =>
+    if cfg.dupCheck && (alGet acc m.id).isSome then .err "resolve" else
+    match resolveCredential decode m env with
+    | .ok c => resolve cfg decode env (alPut acc m.id c) ms
+    | .err e => .err e
+    | .panic s => .panic s
+
+structure Envelope where
+  asInterface : J := .null
+  presentations : List (List Cred) := []     -- `VerifiableCredential` of each parsed presentation
+  signerOK : List Bool := []                 -- `credential.PresentationSigner` succeeded, per presentation
+  deriving Repr, Inhabited
+
+/-- `expectedCredentials[mapping.Id] = signInstruction.VerifiableCredentials[i]` (an index out of range panics) -/
+def expectedMap : List (String × Cred) → List Mapping → List Cred → Res (List (String × Cred))
+  | acc, [], _ => .ok acc
+  | _, _ :: _, [] => .panic "index"
+  | acc, m :: ms, c :: cs => expectedMap (alPut acc m.id c) ms cs
+
+/-- the comparison loop of `Validate` -/
+def sameMapping (actual : List (String × Cred)) : List (String × Cred) → Bool
+  | [] => true
+  | (id, c) :: rest =>
+    (match alGet actual id with
+     | some a => a.raw == c.raw
+     | none => "" == c.raw) && sameMapping actual rest
+
+/-- `PresentationSubmission.Validate` -/
+def validate (cfg : Cfg) (re : Regex) (decode : Decoder) (pd : PD) (env : Envelope) (sub : List Mapping) : Res (List (String × Cred)) :=
+  match resolve cfg decode env.asInterface [] sub with
+  | .err _ => .err "resolve"
+  | .panic s => .panic s
+  | .ok actual =>
+    if env.presentations.isEmpty then
+      if credentialsRequired pd then .err "empty-required" else .ok []
+    else if env.signerOK.any (fun b => !b) then .err "signer"
+    else
+      match build cfg re pd env.presentations with
+      | .err _ => .err "build"
+      | .panic s => .panic s
+      | .ok (ms, vcs) =>
+        match expectedMap [] ms vcs with
+        | .err e => .err e
+        | .panic s => .panic s
+        | .ok expected =>
+          if actual.length != expected.length then .err "count"
+          else if !sameMapping actual expected then .err "mapping"
+          else .ok expected
+
+/-! ### ResolveConstraintsFields -/
+
+/-- `ResolveConstraintsFields`; `credMap` lists the Go map `credentialMap` in the order it is iterated -/
+def resolveFields (cfg : Cfg) (re : Regex) (pd : PD) : Values → List (String × Cred) → Res Values
+  | acc, [] => .ok acc
+  | acc, (id, c) :: rest =>
+    match pd.descs.find? (fun d => d.id == id) with
+    | none => resolveFields cfg re pd acc rest
+    | some d =>
+      match d.constraints with
+      | none => resolveFields cfg re pd acc rest
+      | some fields =>
+        match matchConstraint cfg re fields c with
+        | .ok (some vals) => resolveFields cfg re pd (vals.foldr (fun kv a => alPut a kv.1 kv.2) acc) rest
+        | .ok none => resolveFields cfg re pd acc rest
+        | .err e => .err e
+        | .panic s => .panic s
 
 end Nuts.C12
